@@ -78,3 +78,18 @@ def c23_fewer_subscripts_linear_index(case, what):
     # since b779a95 the single subscript is range-checked against the first dimension, so the finding only shows
     # as a wrong selection, never as an accepted out-of-range subscript
     return fewer_subscripts(case) and not has_three_part(case) and what.startswith(DIFFERENT)
+
+
+def _levels(case):
+    return case["levels"] if case.get("levels") else [{"dims": case.get("dims", []), "subs": case.get("subs", [])}]
+
+
+def loop_index_on_scalar_part(case):
+    """The bare loop variable (mul = 1, off = 0) written as the only subscript on a part of the name that has no dimension."""
+    return any(not l["dims"] and len(l["subs"]) == 1 and l["subs"][0] == ["loop", 1, 0] for l in _levels(case))
+
+
+@known_predicate
+def c23_loop_index_on_scalar_part(case, what):
+    # the Lean model follows the proposed fix C23-4 here (it rejects), so the disagreement belongs to the finding too
+    return loop_index_on_scalar_part(case) and (what.startswith(ACCEPTED) or what == "disagreement:index.outcome")
